@@ -341,7 +341,7 @@ fn scen_replay(ctx: &Ctx) -> i32 {
         return 2;
     };
     let cmp_every = ctx.args.get("cmp-every").and_then(|s| s.parse::<u8>().ok());
-    let out = run_fresh(ctx, &seq, "replay", &RunOpts { cmp_every, stop_first: false, decoder: true, check_inv: true, parse_check: ctx.args.contains_key("parse"), ..Default::default() });
+    let out = run_fresh(ctx, &seq, "replay", &RunOpts { cmp_every, stop_first: false, decoder: true, check_inv: true, parse_check: ctx.args.contains_key("parse"), sync_check: ctx.args.contains_key("sync-check"), child: ctx.args.contains_key("child"), kill_after_sync: ctx.args.contains_key("kill"), cmp_end: !ctx.args.contains_key("sync-check"), ..Default::default() });
     for l in &out.transcript {
         println!("{}", l);
     }
